@@ -83,6 +83,7 @@ func (p *Proc) exec(st *State, s ast.Stmt) flow {
 		}
 		return flow{norm: []*State{st}}
 	case *ast.AssignStmt:
+		p.setAsserts(st, x)
 		p.execAssign(st, x)
 		return flow{norm: []*State{st}}
 	case *ast.IncDecStmt:
@@ -1174,4 +1175,46 @@ func (p *Proc) execRangeMap(st *State, x *ast.RangeStmt, label string, m Val, mt
 	}
 	out.norm = p.merge(exits)
 	return out
+}
+
+// setAsserts checks `assert set(LHS)#k: expr` clauses: an assertion over the locals in scope right
+// before the k-th assignment statement of the procedure whose (single) left-hand side reads LHS.
+func (p *Proc) setAsserts(st *State, x *ast.AssignStmt) {
+	fr := p.cur()
+	if fr.contract == nil || fr.inline || len(x.Lhs) != 1 {
+		return
+	}
+	lhs := exprText(x.Lhs[0])
+	prefix := "set(" + lhs + ")#"
+	site := ""
+	for _, cl := range fr.contract.Clauses {
+		if cl.Kind != "assert" || !strings.HasPrefix(cl.Param, prefix) {
+			continue
+		}
+		if site == "" {
+			n, found := 0, 0
+			ast.Inspect(fr.fi.Body(), func(nd ast.Node) bool {
+				if _, ok := nd.(*ast.FuncLit); ok {
+					return false
+				}
+				if a, ok := nd.(*ast.AssignStmt); ok && len(a.Lhs) == 1 && exprText(a.Lhs[0]) == lhs {
+					n++
+					if a == x {
+						found = n
+					}
+				}
+				return true
+			})
+			site = fmt.Sprintf("%s%d", prefix, found)
+		}
+		if cl.Param != site {
+			continue
+		}
+		cec := p.specEc(st, x.Pos())
+		cec.where = cl.Where
+		g := p.eval(cec, cl.Expr)
+		p.assertFired[cl] = true
+		p.oblige(st, "callsite.assert", fmt.Sprintf("%s%s.assert", fr.prefix, site), cl.Tags, g.T, cl.Where)
+		st.assume(g.T)
+	}
 }
